@@ -186,6 +186,7 @@ class Property:
         self._str_elems = {}
         self.assumptions = []
         self.eq_override = set()
+        self.ndarray_fields = set()  # heap fields holding 1-D numpy arrays (elementwise == with a scalar)
         self.alloc0 = z3.Function("allocated0", Ref, z3.BoolSort())
         self.class_tag = z3.Function("class_of", Ref, z3.IntSort())
         self._class_ids = {}
